@@ -11,6 +11,7 @@ import Props.Defs
 import Proofs.Fields
 import Proofs.Compose
 import Proofs.Pairing
+import Proofs.Translate
 namespace Coma.Props
 open Coma Coma.Spec
 
@@ -42,5 +43,23 @@ theorem C04_offset (P : Params) (ref qry : OMap) (rev : Bool) (it peak : Int) (h
     (p : Pr) (hp : APos.pair p ∈ peakPositions P ref qry rev it peak) :
     p.shift = offset peak p.r p.q ∧ -P.md ≤ p.shift ∧ p.shift ≤ P.md :=
   (Coma.Proofs.engine_within P.md ref qry peak (peak + qry.length) rev it hq p hp).2.2
+
+/-! ### nothing depends on the magnitude of the reference coordinates -/
+
+/-- Moving the reference `d` bp along its chromosome (every label, its length, and the seed peaks with it) moves every
+    segment of the candidate alignment by `d` and changes nothing else: the same label numbers are paired with the same
+    recorded offsets, the same unpaired labels are charged, the confidence and the query span are the same — for every
+    parameter set, strand, seed list and `d` (also negative).  A score, threshold or tolerance that grows with the
+    coordinate (float32 coordinates, `np.isclose` with its relative default) contradicts this theorem. -/
+theorem C04_translation_invariant (P : Params) (C : ChainCfg) (ref qry : OMap) (peaks : List Int) (rev : Bool) (it : Int) (d : Int) :
+    (alignerAlign P C (Coma.Proofs.shiftRef d ref) qry (peaks.map (· + d)) rev it).map
+        (fun r => (r.segments, r.confidence, r.qStart, r.qEnd))
+      = (alignerAlign P C ref qry peaks rev it).map
+        (fun r => (r.segments.map (Coma.Proofs.shiftSeg d), r.confidence, r.qStart, r.qEnd)) :=
+  Coma.Proofs.alignerAlign_shift P C ref qry peaks rev it d
+
+/-- non-vacuity / sanity: a translated segment has the same score -/
+example : (Coma.Proofs.shiftSeg 240000000 ⟨5, [.pair ⟨⟨1, 5⟩, ⟨1, 0⟩, 0, 0⟩, .uref ⟨2, 900⟩]⟩).score defaultParams
+    = (⟨5, [.pair ⟨⟨1, 5⟩, ⟨1, 0⟩, 0, 0⟩, .uref ⟨2, 900⟩]⟩ : Seg).score defaultParams := by decide
 
 end Coma.Props
